@@ -1,22 +1,13 @@
 (* Tree/CopyProofsDeep.v — C13 proofs, layer 1: ElementRaw::deep_copy (Tree/Ops.v) allocates a fresh subtree that is
    the source filtered for the target version, and touches nothing else.  For every table set. *)
-From AV Require Import Base.Bytes Base.Outcome Hash.HashModel Tree.Heap Tree.Ops Tree.Script Tree.Inv
-  Tree.InvProofsBase Tree.CopyProofsDefs.
+From AV Require Import Base.Bytes Base.Outcome Hash.HashModel Tree.Heap Tree.Ops Tree.Script
+  Tree.CopyProofsW Tree.CopyProofsDefs.
 From Coq Require Import Lia.
 Open Scope string_scope.
 Open Scope list_scope.
 Open Scope N_scope.
 
 (* ------------------------------------------------------------------ Closed / Ext *)
-Lemma Core_Closed w : Core w -> Closed w.
-Proof.
-  intros C. split.
-  - intros i n H. apply (c_alloc w C). exists n. exact H.
-  - intros p n c Hp Hin.
-    assert (L : lists w p c). { exists n. split; auto. apply in_elems. exact Hin. }
-    apply (c_up w C) in L. destruct L as (cn & Hc & _). eauto.
-Qed.
-
 Lemma Ext_refl w : Ext w w.
 Proof. repeat split; auto. lia. Qed.
 
